@@ -226,6 +226,7 @@ def gen_case(rng, flavour):
     qr = _gather(scn)
     lines += qr
     nqueries = 1
+    all_nrows = [len(qr) - 1]
     if flavour == "multi":
         # further queries over the same database / taxonomy (a multi-query `tax metagenome` run)
         for _ in range(rng.randint(1, 2)):
@@ -244,6 +245,7 @@ def gen_case(rng, flavour):
             lines += ["nextq", scn2] + qr2
             qr = qr2
             nqueries += 1
+            all_nrows.append(len(qr2) - 1)
     nrows = len(qr) - 1
 
     # ---- observations ----
@@ -251,6 +253,43 @@ def gen_case(rng, flavour):
     rk = lambda: rng.randrange(nranks)            # noqa: E731
     if nqueries > 1:
         lines += [f"mkrona {rng.choice([0, 0, nranks - 2, rng.randrange(nranks)])}", f"mlsum {rng.randrange(nranks)}", "mcsv"]
+        # the same rows delivered differently: ONE CSV with the queries' rows interleaved (each query's rows in gather's
+        # order, or fully shuffled), several CSVs, a query split over two CSVs, a row delivered twice, a CSV without rows
+        qrows = [[(qi, ri) for ri in range(n)] for qi, n in enumerate(all_nrows)]
+        for _ in range(rng.randint(1, 3)):
+            kind = rng.choice(["interleave", "interleave", "shuffle", "twofiles", "split", "dup", "emptyfile"])
+            toks = [t for q in qrows for t in q]
+            if kind in ("interleave", "dup"):
+                cur = [list(q) for q in qrows]
+                merged = []
+                while any(cur):
+                    q = rng.choice([c for c in cur if c])
+                    merged.append(q.pop(0))
+                if kind == "dup":
+                    merged.insert(rng.randrange(len(merged) + 1), rng.choice(merged))
+                files = [merged]
+            elif kind == "shuffle":
+                rng.shuffle(toks)
+                files = [toks]
+            elif kind == "twofiles":
+                order_q = list(range(len(qrows)))
+                rng.shuffle(order_q)
+                cut = rng.randint(1, len(order_q) - 1) if len(order_q) > 1 else 1
+                f1 = [t for q in order_q[:cut] for t in qrows[q]]
+                f2 = [t for q in order_q[cut:] for t in qrows[q]]
+                rng.shuffle(f1)
+                files = [f for f in (f1, f2) if f]
+            elif kind == "split":
+                rng.shuffle(toks)
+                cut = rng.randint(1, max(1, len(toks) - 1))
+                files = [f for f in (toks[:cut], toks[cut:]) if f]
+            else:
+                files = [toks, []]
+                rng.shuffle(files)
+            lines.append("mfiles " + " ".join(",".join(f"{a}.{b}" for a, b in f) if f else "-" for f in files))
+            lines += ["mcsv", f"mkrona {rng.choice([0, rng.randrange(nranks)])}"]
+            if rng.random() < 0.3:
+                lines.append(f"mlsum {rng.randrange(nranks)}")
     lines += ["load", "sum", "csv"]
     if rng.random() < 0.5:
         lines.append(f"sum {rk()}")
@@ -314,6 +353,15 @@ def gen_case(rng, flavour):
             rng.shuffle(gf)
             lines.append(f"cls {gr} {p} {q}")
             lines.append(f"xcli genome {gr} {p} {q} {','.join(gf)}")
+    # older / foreign gather CSVs: an essential column missing (clean refusal), optional columns missing (same sums)
+    if rng.random() < 0.12:
+        e, t = rng.choice([(0, 1), (0, 1), (1, 0), (2, 0), (3, 1), (4, 0)])
+        lines += [f"dropcols {e} {t}", "load", "sum"]
+        if mode == "std":
+            lines.append("kreport")
+        if nqueries > 1:
+            lines.append("mcsv")
+        lines.append("dropcols 0 0")
     # several writers on ONE QueryTaxResult (as one `tax metagenome -F a b c` run does): random order, repeats;
     # every writer is also run on a fresh object first, and must print the same thing
     if rng.random() < 0.75:
@@ -547,6 +595,45 @@ def check_table(P, rows, nr, entries, idx, bad, what="sum", single=None):
                     bad.append((idx, "C19:parent_ge_children", f"{what}: {lin!r} at rank {r} ({float(f)!r}, {bp} bp) is smaller than its children at rank {r2}"))
 
 
+def spec_load(P, allq, layout, drop_ess):
+    """what loading the delivered files must give, from the rows alone: (error tag | None, {query index: [(k, w, lineage)]}
+    in order of appearance, invalid) -- a query whose rows arrive in more than one file is refused, an empty file is refused,
+    a row without lineage is refused under --fail-on-missing-taxonomy; otherwise every query owns ALL its delivered rows,
+    wherever they were in the files"""
+    tax, nr = spec_taxonomy(P)
+    if tax is None:
+        return "ValueError:multi", {}, False
+    if not tax:
+        return "ValueError:empty", {}, False
+    if layout is None:
+        layout = [[(qi, ri) for ri in range(len(rr))] for qi, (qq, rr) in enumerate(allq)]
+    per_query = {}
+    seen_files = {}
+    invalid = False
+    for fi, f in enumerate(layout):
+        if f and drop_ess:
+            return "ValueError:cols", {}, False
+        got_any = False
+        for (qi, ri) in f:
+            if qi in seen_files and seen_files[qi] != fi:
+                return "ValueError:dupq", {}, False
+            k, w_, name = allq[qi][1][ri]
+            lin = tax.get(spec_ident(name, P.kf, P.kv))
+            if P.fail and lin is None:
+                return "ValueError:missing", {}, False
+            if (qi, ri) in [x for x in per_query.get(qi, {}).get("ids", [])]:
+                invalid = True
+            per_query.setdefault(qi, {"ids": [], "rows": []})
+            per_query[qi]["ids"].append((qi, ri))
+            per_query[qi]["rows"].append((k, w_, lin))
+            got_any = True
+        for qi in {q for q, _ in f}:
+            seen_files[qi] = fi
+        if not got_any:
+            return "ValueError:empty", {}, False
+    return None, {qi: v["rows"] for qi, v in per_query.items()}, invalid
+
+
 def float_explains(P, rows, nr, tag):
     """is a rejection accounted for by binary64 rounding of the running sums (in row order)?
     gt100: some lineage's running float sum of k_i/N (or w_i/W) exceeds 1.0 although the exact sum is <= 1;
@@ -622,6 +709,8 @@ def _oracle(case, impl):
     fresh = {}
     sess_out = {}
     last_cls = {}
+    layout = None
+    drop_ess = drop_totw = False
     for idx, (l, o) in enumerate(zip(case, impl)):
         w = l.split()
         if not w:
@@ -657,26 +746,51 @@ def _oracle(case, impl):
             if len(idx_l) == len(cur):
                 order = [cur[i] for i in idx_l]
             continue
+        if op == "mfiles":
+            layout = [[] if f == "-" else [tuple(int(x) for x in t.split(".")) for t in f.split(",")] for f in w[1:]]
+            continue
+        if op == "dropcols" and len(w) == 3:
+            drop_ess, drop_totw = int(w[1]) > 0, w[2] == "1"
+            continue
         if op in ("mkrona", "mlsum", "mcsv"):
             allq = P.queries + [(P.q, P.rows)]
+            # the rows as DELIVERED (files of the layout), grouped by query name independently of the loader
+            fail, per_query, invalid = spec_load(P, allq, layout, drop_ess)
             tabs = []
-            fail = None
-            for (qq, rr) in allq:
-                rws, nr2 = spec_rows(P, None, raw=rr)
-                if rws is None:
-                    fail = "ValueError:multi"
-                    break
-                if P.fail and any(lin is None for _, _, lin in rws):
-                    fail = "ValueError:missing"
-                    break
-                tabs.append((qq, rws, nr2))
+            qidx = []
+            if fail is None:
+                for qi in per_query:
+                    tabs.append((allq[qi][0], per_query[qi], spec_taxonomy(P)[1]))
+                    qidx.append(qi)
             if fail:
                 if o != "err " + fail:
                     bad.append((idx, "C19:load:error-expected", f"`{l[:60]}`: expected {fail}, got {o[:80]}"))
                 continue
+            if invalid:
+                continue        # a gather row delivered twice: not a valid gather result, only the model comparison applies
             if o.startswith("err ValueError:gt100") or o.startswith("err ValueError:le0"):
                 bad.append((idx, "C19:never_rejected:multi-query", f"`{l}` rejects valid gather results of {len(allq)} queries: {o}"))
                 continue
+            if op == "mcsv" and o.startswith("ok"):
+                # per query: the summary must be the sums over THAT query's rows, wherever they were in the files
+                byq = {}
+                for t in o.split()[1:]:
+                    qi_s, ent = t.split(":", 1)
+                    byq.setdefault(int(qi_s), []).append(ent)
+                for (qq, rws, nr2), qi in zip(tabs, qidx):
+                    if not any(lin for _, _, lin in rws):
+                        continue
+                    ents = parse_entries("ok " + " ".join(byq.get(qi, [])))
+                    saveq = P.q
+                    P.q = qq
+                    sub = []
+                    check_table(P, rws, nr2, ents, idx, sub, what=f"mcsv query {qi}")
+                    P.q = saveq
+                    for (i2, sig, msg) in sub:
+                        bad.append((i2, sig.replace("C19:", "C19:multi:", 1), msg))
+                for qi in byq:
+                    if qi not in qidx:
+                        bad.append((idx, "C19:multi:query-extra", f"`{l}`: rows for query {qi} which has no delivered row"))
             if op == "mkrona":
                 r = int(w[1])
                 exp = {}
@@ -727,6 +841,8 @@ def _oracle(case, impl):
             must_fail = "ValueError:multi"
         elif not spec_taxonomy(P)[0]:
             must_fail = "ValueError:empty"          # the taxonomy is loaded (and refused) before the gather results
+        elif drop_ess and op not in ("sopen", "scsv", "shuman", "skrona", "slsum", "skreport", "sbioboxes", "xcli"):
+            must_fail = "ValueError:cols"           # a gather CSV without an essential column is refused cleanly
         elif P.fail and any(lin is None for _, _, lin in rows):
             must_fail = "ValueError:missing"
         if must_fail:
@@ -737,6 +853,10 @@ def _oracle(case, impl):
                             "the standard-rank loader gives"))
             elif o != "err " + must_fail:
                 bad.append((idx, "C19:load:error-expected", f"`{l[:60]}`: expected {must_fail}, got {o[:80]}"))
+            continue
+        if drop_totw and op == "kreport":
+            if spec_table(P, rows, nr) and not o.startswith("err ValueError:other"):
+                bad.append((idx, "C19:load:error-expected", f"kreport without total_weighted_hashes: expected the 'before v4.5.0' error, got {o[:80]}"))
             continue
         if o.startswith("err ValueError:gt100") or o.startswith("err ValueError:le0"):
             tag = o.split(":")[1].split()[0]
@@ -910,6 +1030,10 @@ def _oracle(case, impl):
                 bad.append((idx, "C19:classification_lowest_rank:ani", f"`{l}`: reported {st} at rank {r}, expected {exp}"))
         elif op == "xcli":
             parts = dict(p.split("=", 1) for p in o.split()[1:] if "=" in p)
+            if w[1] == "metagenome" and P.queries:
+                sl = spec_load(P, P.queries + [(P.q, P.rows)], layout, drop_ess)
+                if sl[0] is not None or sl[2]:
+                    continue    # the delivery itself must be refused (query split over files, empty file), or repeats a row
             if parts.get("rc") != "0":
                 bad.append((idx, "C19:never_rejected:cli", f"`{l}` exited with {parts.get('rc')} on a valid gather result"))
                 continue
